@@ -264,6 +264,12 @@ func (w *scriptedWatcher) Watch(ctx context.Context, _ object.ObjMetadataSet, _ 
 	go func() {
 		defer close(done)
 		defer close(ch)
+		if w.env.Cancel.Kind == CBeforeSync && w.env.Cancel.ByWatcher {
+			// the watcher fails before it is synchronised and stops by itself (runner.go mutant:
+			// the run must end although no task was started)
+			send(pollevent.Event{Type: pollevent.ErrorEvent, Error: fmt.Errorf("scripted watcher failure before sync")})
+			return
+		}
 		if w.env.Cancel.Kind == CBeforeSync {
 			// the context is already cancelled: holding back the sync event keeps
 			// the runner's select from seeing two ready cases at once
